@@ -196,7 +196,7 @@ def run(rep):
             diff = [(r["f"], r["d"], r["ft"], r["status"], r["message"][:80]) for r in rs if (r["status"], r["xform"], r["warnings"], r["itemsets"]) != (ref["status"], ref["xform"], ref["warnings"], ref["itemsets"])]
             rep.violation(f"{PROP}:matrix:{clause}", f"clause {clause}; workbook {o['job']['tag']}: channels differing from {ref['f']}/{ref['d']}: {diff[:6]}"[:700], {"matrix": True, "wb": o["wb"], "clause": clause, "tag": o["job"]["tag"]})
     rep.extra["matrix_workbooks_all_ok"] = nok
-    if nok < len(mouts) * 0.8:
+    if nok < len(mouts) * 0.8 and not rep.violations:      # (with violations recorded, they are the verdict)
         raise tlc.MachineryError(f"matrix workbooks mostly not converting: {nok}/{len(mouts)}")
     # canaries
     base = next(o for o in okr if len(o["trace"][0]["kept"]) >= 2)
